@@ -33,6 +33,8 @@ VARIABLES
   log,        \* [t -> Seq(<<key,size>>)]  entries of successful appends, in order
   cur,        \* [t -> Nat]  entries consumed so far (view of the running process)
   lb,         \* [t -> Nat]  durable lower bound: a restart may not move cur below it
+  slack,      \* [t -> Nat]  after a restart/crash the consumer resumes somewhere in
+              \*             cur-slack .. cur; the next consuming read resolves it (slack = 0)
   rn,         \* [t -> Nat]  consecutive read_next consumptions since restart / batch consume
   clean,      \* [t -> BOOLEAN]
   countKnown, \* [t -> BOOLEAN]  entry count is determined by the contract
@@ -40,7 +42,7 @@ VARIABLES
   lastPeek,   \* <<>> or <<t, kind, budget, result>>: the peek returned by the previous call
   reclaimed   \* set of <<t, position>> whose storage was handed to the reclaimer
 
-avars == <<mode, pe, maxBatch, log, cur, lb, rn, clean, countKnown, cleanKnown, lastPeek, reclaimed>>
+avars == <<mode, pe, maxBatch, log, cur, lb, slack, rn, clean, countKnown, cleanKnown, lastPeek, reclaimed>>
 
 Instances == {InstOf(t) : t \in Topics}
 TopicsOf(i) == {t \in Topics : InstOf(t) = i}
@@ -52,6 +54,9 @@ RECURSIVE SumSize(_)
 SumSize(s) == IF s = <<>> THEN 0 ELSE Head(s)[2] + SumSize(Tail(s))
 
 Unread(t)  == SubSeq(log[t], cur[t] + 1, Len(log[t]))
+UnreadFrom(t, c) == SubSeq(log[t], c + 1, Len(log[t]))
+(* Positions the consumer of t may currently be at. *)
+Cands(t)   == (cur[t] - slack[t]) .. cur[t]
 Strict(t)  == mode[InstOf(t)] = "strict"
 PE(t)      == pe[InstOf(t)]
 
@@ -59,10 +64,10 @@ PE(t)      == pe[InstOf(t)]
 (* C03: at most maxBatch entries; payload sum within budget unless exactly one entry;     *)
 (* at least one entry whenever something is unconsumed.  C01: a prefix of the unread.     *)
 WithinBudget(s, b) == b < 0 \/ Len(s) = 1 \/ SumSize(s) <= b
-LegalBatch(t, b, rs) ==
-  IF Unread(t) = <<>> THEN rs = <<>>
-  ELSE /\ Len(rs) \in 1 .. Min(maxBatch, Len(Unread(t)))
-       /\ rs = SubSeq(Unread(t), 1, Len(rs))
+LegalBatch(t, c, b, rs) ==
+  IF UnreadFrom(t, c) = <<>> THEN rs = <<>>
+  ELSE /\ Len(rs) \in 1 .. Min(maxBatch, Len(UnreadFrom(t, c)))
+       /\ rs = SubSeq(UnreadFrom(t, c), 1, Len(rs))
        /\ WithinBudget(rs, b)
 
 (* rs is an in-order subsequence of l (greedy matching is complete for subsequences).     *)
@@ -81,6 +86,7 @@ Init ==
   /\ log = [t \in Topics |-> <<>>]
   /\ cur = [t \in Topics |-> 0]
   /\ lb  = [t \in Topics |-> 0]
+  /\ slack = [t \in Topics |-> 0]
   /\ rn  = [t \in Topics |-> 0]
   /\ clean = [t \in Topics |-> TRUE]
   /\ countKnown = [t \in Topics |-> TRUE]
@@ -96,7 +102,7 @@ AppendOk(t, e) ==
   /\ clean' = [clean EXCEPT ![t] = FALSE]
   /\ cleanKnown' = [cleanKnown EXCEPT ![t] = TRUE]
   /\ lastPeek' = <<>>
-  /\ UNCHANGED <<cfgvars, cur, lb, rn, countKnown, reclaimed>>
+  /\ UNCHANGED <<cfgvars, cur, lb, slack, rn, countKnown, reclaimed>>
 
 (* C04: an append or batch that returns an error leaves no trace. It may or may not have *)
 (* marked the topic dirty.                                                             *)
@@ -105,7 +111,7 @@ AppendFail(t) ==
      \/ /\ clean' = [clean EXCEPT ![t] = FALSE]
         /\ cleanKnown' = [cleanKnown EXCEPT ![t] = TRUE]
   /\ lastPeek' = <<>>
-  /\ UNCHANGED <<cfgvars, log, cur, lb, rn, countKnown, reclaimed>>
+  /\ UNCHANGED <<cfgvars, log, cur, lb, slack, rn, countKnown, reclaimed>>
 
 (* C04: all of es, contiguously, or (on error) nothing. An empty batch succeeds.          *)
 BatchOk(t, es) ==
@@ -114,42 +120,49 @@ BatchOk(t, es) ==
   /\ clean' = [clean EXCEPT ![t] = FALSE]
   /\ cleanKnown' = [cleanKnown EXCEPT ![t] = TRUE]
   /\ lastPeek' = <<>>
-  /\ UNCHANGED <<cfgvars, cur, lb, rn, countKnown, reclaimed>>
+  /\ UNCHANGED <<cfgvars, cur, lb, slack, rn, countKnown, reclaimed>>
 
 (* ---- cursor-based reads (C01, C02, C03, C09, C15) ---- *)
 PeekAgrees(t, kind, b, rs) ==
   (lastPeek # <<>> /\ lastPeek[1] = t /\ lastPeek[2] = kind /\ lastPeek[3] = b) => rs = lastPeek[4]
 
-ConsumeN(t, n, viaReadNext) ==
-  /\ cur' = [cur EXCEPT ![t] = @ + n]
-  /\ IF n = 0 THEN UNCHANGED <<rn, lb>>
-     ELSE IF Strict(t) THEN /\ lb' = [lb EXCEPT ![t] = cur'[t]]
+(* A consuming read that found the consumer at position c and returned n entries. An empty  *)
+(* result resolves nothing and moves nothing.                                             *)
+ConsumeN(t, c, n, viaReadNext) ==
+  IF n = 0 THEN UNCHANGED <<cur, slack, rn, lb>>
+  ELSE /\ cur' = [cur EXCEPT ![t] = c + n]
+       /\ slack' = [slack EXCEPT ![t] = 0]
+       /\ IF Strict(t) THEN /\ lb' = [lb EXCEPT ![t] = cur'[t]]
                             /\ UNCHANGED rn
-     ELSE IF viaReadNext
-          THEN /\ rn' = [rn EXCEPT ![t] = Min(@ + 1, PE(t))]
-               /\ lb' = IF rn'[t] >= PE(t)
-                        THEN [lb EXCEPT ![t] = Max(@, cur'[t] - PE(t))]
-                        ELSE lb
-          ELSE /\ rn' = [rn EXCEPT ![t] = 0]
-               /\ UNCHANGED lb
+          ELSE IF viaReadNext
+               THEN /\ rn' = [rn EXCEPT ![t] = Min(@ + 1, PE(t))]
+                    /\ lb' = IF rn'[t] >= PE(t)
+                             THEN [lb EXCEPT ![t] = Max(@, cur'[t] - PE(t))]
+                             ELSE lb
+               ELSE /\ rn' = [rn EXCEPT ![t] = 0]
+                    /\ UNCHANGED lb
 
-ReadNext(t, ck, rs) ==
-  /\ rs = IF Unread(t) = <<>> THEN <<>> ELSE <<Head(Unread(t))>>
+(* c: the position the consumer was at (c \in Cands(t); c = cur[t] unless a restart left it   *)
+(* open).                                                                                *)
+ReadNext(t, ck, c, rs) ==
+  /\ c \in Cands(t)
+  /\ rs = IF UnreadFrom(t, c) = <<>> THEN <<>> ELSE <<Head(UnreadFrom(t, c))>>
   /\ IF ck
      THEN /\ PeekAgrees(t, "read", 0, rs)
-          /\ ConsumeN(t, Len(rs), TRUE)
+          /\ ConsumeN(t, c, Len(rs), TRUE)
           /\ lastPeek' = <<>>
-     ELSE /\ UNCHANGED <<cur, lb, rn>>
+     ELSE /\ UNCHANGED <<cur, lb, slack, rn>>
           /\ lastPeek' = <<t, "read", 0, rs>>
   /\ UNCHANGED <<cfgvars, log, clean, countKnown, cleanKnown, reclaimed>>
 
-BatchRead(t, b, ck, rs) ==
-  /\ LegalBatch(t, b, rs)
+BatchRead(t, b, ck, c, rs) ==
+  /\ c \in Cands(t)
+  /\ LegalBatch(t, c, b, rs)
   /\ IF ck
      THEN /\ PeekAgrees(t, "bread", b, rs)
-          /\ ConsumeN(t, Len(rs), FALSE)
+          /\ ConsumeN(t, c, Len(rs), FALSE)
           /\ lastPeek' = <<>>
-     ELSE /\ UNCHANGED <<cur, lb, rn>>
+     ELSE /\ UNCHANGED <<cur, lb, slack, rn>>
           /\ lastPeek' = <<t, "bread", b, rs>>
   /\ UNCHANGED <<cfgvars, log, clean, countKnown, cleanKnown, reclaimed>>
 
@@ -161,12 +174,12 @@ OffsetRead(t, b, ck, headOf, rs) ==
   /\ IsSubseqFrom(rs, log[t], headOf + 1)
   /\ Len(rs) + (IF headOf > 0 THEN 1 ELSE 0) <= maxBatch
   /\ (headOf = 0 => WithinBudget(rs, b))
-  /\ UNCHANGED <<cfgvars, log, cur, lb, rn, clean, countKnown, cleanKnown, reclaimed>>
+  /\ UNCHANGED <<cfgvars, log, cur, lb, slack, rn, clean, countKnown, cleanKnown, reclaimed>>
   /\ UNCHANGED lastPeek     \* C02: invisible, even between a peek and its consuming read
 
 (* ---- observations (C15, C17) ---- *)
 Count(t, n) ==
-  /\ countKnown[t] => n = Len(log[t]) - cur[t]
+  /\ (countKnown[t] /\ slack[t] = 0) => n = Len(log[t]) - cur[t]
   /\ UNCHANGED avars
 
 IsClean(t, v) ==
@@ -176,32 +189,17 @@ IsClean(t, v) ==
 Mark(t, v) ==
   /\ clean' = [clean EXCEPT ![t] = v]
   /\ cleanKnown' = [cleanKnown EXCEPT ![t] = TRUE]
-  /\ UNCHANGED <<cfgvars, log, cur, lb, rn, countKnown, lastPeek, reclaimed>>
+  /\ UNCHANGED <<cfgvars, log, cur, lb, slack, rn, countKnown, lastPeek, reclaimed>>
 
-(* ---- restart of one instance after a clean shutdown (C06, C15, C17) ---- *)
+(* ---- restart of one instance after a clean shutdown (C06, C15, C17) ----                  *)
+(* StrictlyAtOnce: nothing changes. AtLeastOnce: the consumer resumes somewhere in lb .. cur   *)
+(* (never ahead: nothing is skipped); which position it is shows at its next consuming read. *)
 Restart(i) ==
-  /\ cur' \in [Topics -> Nat]
-  /\ \A t \in Topics :
-        IF InstOf(t) = i /\ ~Strict(t) THEN cur'[t] \in lb[t] .. cur[t] ELSE cur'[t] = cur[t]
-  /\ lb' = [t \in Topics |-> IF InstOf(t) = i THEN cur'[t] ELSE lb[t]]
+  /\ slack' = [t \in Topics |-> IF InstOf(t) = i /\ ~Strict(t) THEN cur[t] - lb[t] ELSE slack[t]]
   /\ rn' = [t \in Topics |-> IF InstOf(t) = i THEN 0 ELSE rn[t]]
   /\ countKnown' = [t \in Topics |-> IF InstOf(t) = i /\ ~Strict(t) THEN FALSE ELSE countKnown[t]]
   /\ lastPeek' = <<>>
-  /\ UNCHANGED <<cfgvars, log, clean, cleanKnown, reclaimed>>
-
-(* Finite form used by TLC: the restart cursor of every AtLeastOnce topic of i is chosen    *)
-(* in lb .. cur.                                                                        *)
-RestartChoices(i) ==
-  [t \in Topics |-> IF InstOf(t) = i /\ ~Strict(t) THEN lb[t] .. cur[t] ELSE {cur[t]}]
-
-RestartTo(i, c) ==
-  /\ \A t \in Topics : c[t] \in RestartChoices(i)[t]
-  /\ cur' = c
-  /\ lb' = [t \in Topics |-> IF InstOf(t) = i THEN c[t] ELSE lb[t]]
-  /\ rn' = [t \in Topics |-> IF InstOf(t) = i THEN 0 ELSE rn[t]]
-  /\ countKnown' = [t \in Topics |-> IF InstOf(t) = i /\ ~Strict(t) THEN FALSE ELSE countKnown[t]]
-  /\ lastPeek' = <<>>
-  /\ UNCHANGED <<cfgvars, log, clean, cleanKnown, reclaimed>>
+  /\ UNCHANGED <<cfgvars, log, cur, lb, clean, cleanKnown, reclaimed>>
 
 (* ---- crash / power loss and recovery of one instance (C07-C10) ----                    *)
 (* inflight: <<>> | <<"append", t, <<e>>>> | <<"batch", t, es>> | <<"read", t, n>>         *)
@@ -212,39 +210,35 @@ KeptChoices(inflight, batchAtomic) ==
   ELSE IF batchAtomic THEN {<<>>, inflight[3]}
   ELSE {SubSeq(inflight[3], 1, k) : k \in 0 .. Len(inflight[3])}
 
-CrashCursorChoices(i, t, inflight, newLen) ==
-  LET extra == IF inflight # <<>> /\ inflight[1] = "read" /\ inflight[2] = t THEN inflight[3] ELSE 0
-      lo    == IF InstOf(t) # i THEN cur[t] ELSE IF Strict(t) THEN cur[t] ELSE lb[t]
-      hi    == IF InstOf(t) # i THEN cur[t] ELSE Min(newLen, cur[t] + extra)
-  IN lo .. hi
-
-Crash(i, inflight, batchAtomic, kept, c) ==
+Crash(i, inflight, batchAtomic, kept) ==
   /\ kept \in KeptChoices(inflight, batchAtomic)
   /\ log' = IF kept = <<>> THEN log ELSE [log EXCEPT ![inflight[2]] = @ \o kept]
-  /\ \A t \in Topics : c[t] \in CrashCursorChoices(i, t, inflight, Len(log'[t]))
-  /\ cur' = c
-  /\ lb' = [t \in Topics |-> IF InstOf(t) = i THEN c[t] ELSE lb[t]]
+  /\ LET extra(t) == IF inflight # <<>> /\ inflight[1] = "read" /\ inflight[2] = t THEN inflight[3] ELSE 0
+         hi(t) == Min(Len(log'[t]), cur[t] + extra(t))
+         lo(t) == IF Strict(t) THEN cur[t] - slack[t] ELSE Min(lb[t], cur[t] - slack[t])
+     IN /\ cur' = [t \in Topics |-> IF InstOf(t) = i THEN hi(t) ELSE cur[t]]
+        /\ slack' = [t \in Topics |-> IF InstOf(t) = i THEN hi(t) - lo(t) ELSE slack[t]]
   /\ rn' = [t \in Topics |-> IF InstOf(t) = i THEN 0 ELSE rn[t]]
   /\ countKnown' = [t \in Topics |-> IF InstOf(t) = i THEN FALSE ELSE countKnown[t]]
   /\ cleanKnown' = [t \in Topics |-> IF InstOf(t) = i THEN FALSE ELSE cleanKnown[t]]
   /\ lastPeek' = <<>>
-  /\ UNCHANGED <<cfgvars, clean, reclaimed>>
+  /\ UNCHANGED <<cfgvars, lb, clean, reclaimed>>
 
 (* ---- reclamation (C12, C13) ----                                                      *)
 (* stored: set of <<t, position>> of acknowledged entries stored in the file handed to     *)
 (* the reclaimer. Every one of them must be durably consumed.                            *)
 Reclaim(stored) ==
-  /\ \A p \in stored : p[2] <= lb[p[1]] /\ p[2] <= cur[p[1]]
+  /\ \A p \in stored : p[2] <= lb[p[1]] /\ p[2] <= cur[p[1]] - slack[p[1]]
   /\ reclaimed' = reclaimed \cup stored
-  /\ UNCHANGED <<cfgvars, log, cur, lb, rn, clean, countKnown, cleanKnown, lastPeek>>
+  /\ UNCHANGED <<cfgvars, log, cur, lb, slack, rn, clean, countKnown, cleanKnown, lastPeek>>
 
 -----------------------------------------------------------------------------------------
 (* State invariants of the contract (checked in MC_WalrusAPI and along every validated     *)
 (* trace).                                                                              *)
 TypeOK ==
-  /\ \A t \in Topics : cur[t] \in 0 .. Len(log[t]) /\ lb[t] \in 0 .. cur[t]
+  /\ \A t \in Topics : cur[t] \in 0 .. Len(log[t]) /\ slack[t] \in 0 .. cur[t] /\ lb[t] \in 0 .. cur[t]
   /\ \A t \in Topics : clean[t] \in BOOLEAN
 
-InvReclaimedConsumed == \A p \in reclaimed : p[2] <= cur[p[1]]     \* C12
+InvReclaimedConsumed == \A p \in reclaimed : p[2] <= cur[p[1]] - slack[p[1]]     \* C12
 
 =========================================================================================
